@@ -453,6 +453,12 @@ def verify_config(contract, cfg, both=False, z3_timeout=None):
                 vcs.append(VC(f'post:{nm}', q.pc, g, 'post', path=list(q.trace)))
             # vacuity guard: the path condition itself must be satisfiable
             vcs.append(VC('cover:path-feasible', q.pc, BoolVal(False), 'cover', path=list(q.trace)))
+            # must-fail guards: deliberately WRONG variants of the main clauses; an engine / contract that can prove them on
+            # every path proves anything (checked per unit: at least one path must refute each variant)
+            e_ = q.env
+            stt, pos_ = ex.truth(e_['_status'], q), e_['_pos']
+            vcs.append(VC('mustfail:G-ok-negated', q.pc, stt == Not(oc.ok), 'mustfail', path=list(q.trace)))
+            vcs.append(VC('mustfail:G-end-off-by-one', q.pc, pos_ == If(oc.ok, oc.end, pos_) + 1, 'mustfail', path=list(q.trace)))
         res.paths = npaths
         res.uncovered = len(ex.all_stmts - ex.covered)
         res.stats = dict(ex.stats)
@@ -460,10 +466,17 @@ def verify_config(contract, cfg, both=False, z3_timeout=None):
             res.error = ('vacuous', 'no feasible path through the fragment')
         nreplays = 0
         infeasible_paths = set()
+        mustfail = {}
         for vc in vcs:
             kw = {} if z3_timeout is None else {'z3_timeout': z3_timeout}
-            small = [[cx.N <= b] for b in (3, 8, 40)] if vc.kind != 'cover' else None
-            v = discharge(vc, ex.axioms, both=both and vc.kind != 'cover', small=small, **kw)
+            if vc.kind == 'mustfail':
+                v = discharge(vc, ex.axioms, both=False, z3_timeout=1500)       # only `unsat` matters here; unknown = not proved = fine
+            else:
+                small = [[cx.N <= b] for b in (3, 8, 40)] if vc.kind != 'cover' else None
+                v = discharge(vc, ex.axioms, both=both and vc.kind != 'cover', small=small, **kw)
+            if vc.kind == 'mustfail':
+                mustfail.setdefault(vc.name, []).append(v.status)
+                continue
             if vc.kind == 'cover':
                 # must be SAT (hypotheses consistent)
                 if v.status == 'unsat':
@@ -482,6 +495,11 @@ def verify_config(contract, cfg, both=False, z3_timeout=None):
             res.verdicts.append(v)
         if npaths and len(infeasible_paths) >= npaths:
             res.error = ('vacuous', 'every explored path has a contradictory path condition')
+        for name, sts in mustfail.items():
+            # G-end-off-by-one is legitimately provable when the unit can never succeed (Fail): only flag it when some path can succeed
+            if sts and all(x == 'unsat' for x in sts):
+                res.error = ('vacuous', f'must-fail guard {name} was PROVED on every path: the engine or the contract is vacuous')
+        res.stats['mustfail'] = {k: len(v) for k, v in mustfail.items()}
     except OutOfSubset as e:
         res.error = ('out-of-subset', str(e))
     except RoleError as e:
